@@ -171,3 +171,128 @@ def _(c):
     lp.invariant('all(ext_trace()[k] == 6 for k in range(old(len(ext_trace())), len(ext_trace())))', 'only_prompts')
     lp.invariant('ui_state() is self.state', 'wiring')
     c.native_gen(_gen_tui)
+
+
+# ---------------------------------------------------------------------------------------------------------------------
+# the gdb.Breakpoint / gdb.Command subclasses: what GDB is told (stop() return value, which command text reaches the plugin)
+from pyvc.contracts import schema
+schema('backends.gdb_plugin.plugin.WlClosureCallBreakpoint', plugin='Obj("backends.gdb_plugin.plugin.Plugin")', message_extractor='Func')
+schema('backends.gdb_plugin.plugin.WlCommand', plugin='Obj("backends.gdb_plugin.plugin.Plugin")')
+schema('backends.gdb_plugin.plugin.WlSubcommand', plugin='Obj("backends.gdb_plugin.plugin.Plugin")', command='str')
+
+
+@contract('field:backends.gdb_plugin.plugin.WlClosureCallBreakpoint.message_extractor')
+def _(c):
+    c.external('extract.received_message / extract.sent_message (C09): the connection id and the message of the closure GDB is stopped at, or RuntimeError')
+    c.returns('Tuple(str, Obj("core.wl.message.Message"))')
+    c.raises('RuntimeError', when=None, exact=False)
+    c.ensures('fresh(result[1])')
+    c.modifies('new', 'cell(core.wl.message.Message.base_time)')
+    c.epoch_preserving()
+
+
+def _gen_stop(rnd):
+    p = gen.plugin_with_history(rnd)
+    from pyvc import repo
+    mod = repo.load('backends.gdb_plugin.plugin')
+    bp = mod.WlClosureCallBreakpoint.__new__(mod.WlClosureCallBreakpoint)
+    bp.plugin = p
+    cid = rnd.choice(['gdb_conn:0x10', 'gdb_conn:0x40'])
+    msg = gen.simple_message(rnd)
+    bp.message_extractor = lambda: (cid, msg)
+    if rnd.random() < 0.5:
+        p.state.pause_requested()          # a pause left over from an earlier command / breakpoint: this message has to clear it
+    _gen_stop.last = (cid, msg)
+    return (bp,)
+
+
+@contract('backends.gdb_plugin.plugin.WlClosureCallBreakpoint.stop')
+def _(c):
+    """GDB halts the program (stop() returns True) iff the plugin is paused after this message was processed - which Plugin.process_message proves
+    to be: iff the selection agrees and the breakpoint matcher matches this message"""
+    c.prop('C10')
+    c.returns('bool')
+    c.requires('ui_state() is self.plugin.state', 'plugin_state_is_the_registered_ui_state')
+    c.raises('RuntimeError', when=None, exact=False)
+    c.ensures('result == self.plugin.state._paused', 'gdb_halts_iff_the_plugin_is_paused_after_this_message')
+    c.modifies('self.plugin.state._paused', 'dict(self.plugin.connections)', 'ext', 'trace', 'ui', 'counts', 'new', 'cell(core.wl.message.Message.base_time)')
+    c.native_gen(_gen_stop)
+
+
+def _gen_wlcmd(rnd, sub):
+    p = gen.plugin_with_history(rnd)
+    got = []
+    class Sink:
+        def process_command(self, cmd): got.append(cmd)
+    p.command_sink = Sink()
+    from pyvc import repo
+    mod = repo.load('backends.gdb_plugin.plugin')
+    cls = mod.WlSubcommand if sub else mod.WlCommand
+    o = cls.__new__(cls)
+    o.plugin = p
+    if sub:
+        o.command = rnd.choice(['filter', 'list', 'resume'])
+    _gen_wlcmd.got = got
+    return (o, rnd.choice(['', 'wl_surface', 'x y', ' ~ 3']), True)
+
+
+from pyvc.contracts import native_helper
+
+
+@native_helper
+def command_text_reached_the_sink(expected):
+    return _gen_wlcmd.got == [expected]
+
+
+@contract('backends.gdb_plugin.plugin.WlCommand.invoke')
+def _(c):
+    c.prop('C10')
+    c.bounded('`wl ARG` hands ARG to the plugin unchanged (one-liner over the gdb.Command API)')
+    c.types(arg='str', from_tty='bool')
+    c.ensures('command_text_reached_the_sink(arg)', 'the_argument_is_the_command', native_only=True)
+    c.native_gen(lambda rnd: _gen_wlcmd(rnd, False), quick=200, thorough=1000)
+
+
+@contract('backends.gdb_plugin.plugin.WlSubcommand.invoke')
+def _(c):
+    c.prop('C10')
+    c.bounded('`wlCOMMAND ARG` hands `COMMAND ARG` to the plugin (one-liner over the gdb.Command API)')
+    c.types(arg='str', from_tty='bool')
+    c.ensures('command_text_reached_the_sink(self.command + " " + arg)', 'the_subcommand_and_its_argument_are_the_command', native_only=True)
+    c.native_gen(lambda rnd: _gen_wlcmd(rnd, True), quick=200, thorough=1000)
+
+
+def _gen_destroy_stop(rnd):
+    p = gen.plugin_with_history(rnd)
+    from pyvc import repo
+    mod = repo.load('backends.gdb_plugin.plugin')
+    bp = mod.WlConnectionDestroyBreakpoint.__new__(mod.WlConnectionDestroyBreakpoint)
+    bp.plugin = p
+    addr = rnd.choice([0x10, 0x40, 0x77])
+    class _Frame:
+        def read_var(self, n):
+            assert n == 'connection'
+            return gen.FakeValue(addr)
+    gdbmod = mod.gdb
+    gdbmod.selected_frame = lambda: _Frame()
+    closed = []
+    real = p.close_connection
+    p.close_connection = lambda cid: (closed.append(cid), real(cid))[1]
+    _gen_destroy_stop.state = (closed, 'gdb_conn:' + hex(addr))
+    return (bp,)
+
+
+@native_helper
+def destroy_closed_exactly_that_connection(result):
+    closed, want = _gen_destroy_stop.state
+    return result is False and closed == [want]
+
+
+@contract('backends.gdb_plugin.plugin.WlConnectionDestroyBreakpoint.stop')
+def _(c):
+    """wl_connection_destroy: the connection in the frame is closed in the plugin, once, and the program is not halted"""
+    c.prop('C15')
+    c.bounded('one-liner over the gdb frame API: on stand-in frames the connection being destroyed (and only it) is closed once and stop() returns False')
+    c.returns('bool')
+    c.ensures('destroy_closed_exactly_that_connection(result)', 'closes_the_destroyed_connection_and_keeps_running', native_only=True)
+    c.native_gen(_gen_destroy_stop, quick=200, thorough=1000)
